@@ -131,6 +131,10 @@ def random_graph(rnd, n, pools_decl, allow_phony=True, val_p=0.15, oo_p=0.15, ex
                 oo.append(o)
             elif r < ex_p + oo_p + val_p:
                 val.append(o)
+            # a step may use several outputs of one producer, in the same or in different roles
+            rest = [x for x in outs_by_step[i - 1] if x != o]
+            if r < ex_p + oo_p + val_p and rest and rnd.random() < 0.5:
+                rnd.choice([ins, imp, oo, val]).append(rnd.choice(rest))
         if rnd.random() < 0.1 and j < n:
             val.append("o%d" % rnd.randint(j + 1, n))
         phony = allow_phony and rnd.random() < 0.15
@@ -278,6 +282,38 @@ def args_family(seed, tier):
         scns.append(scenario("args-%d" % i, ops, fam="sched"))
     return scns
 
+def outdir_family(seed, tier):
+    """Output directories (C16): steps that share output directories, some of whose commands fail
+    and clean up after themselves (they remove the directory n2 made for them, it being empty).
+    n2 has to make the directory again for every later step that writes there.  No preparatory
+    build: the directories do not exist when the invocation starts."""
+    rnd = random.Random(seed * 31 + 17)
+    scns = []
+    count = 60 if tier == "quick" else 600
+    for idx in range(count):
+        n = rnd.randint(2, 5)
+        steps = []
+        dirs = ["dd", "dd/sub", "ee"]
+        for i in range(1, n + 1):
+            d = rnd.choice(dirs[:2] if rnd.random() < 0.8 else dirs)
+            outs = ["%s/o%d" % (d, i)]
+            if rnd.random() < 0.3:
+                outs.append("%s/x%d" % (rnd.choice(dirs), i))
+            ins = ["s%d" % i]
+            oo = []
+            if i > 1 and rnd.random() < 0.4:
+                oo.append(steps[rnd.randint(0, i - 2)]["outs"][0])
+            steps.append(step(outs, ins, oo=oo, cmd="mk%d" % i, eff={"kind": "write", "reads": [], "cleandir": True}))
+        g = graph(steps)
+        ops = [manifest_op(g)] + [{"op": "write", "path": f} for f in sources(g)]
+        outcomes = {s: "fail" for s in range(1, n + 1) if rnd.random() < 0.45}
+        if not outcomes:
+            outcomes[rnd.randint(1, n)] = "fail"
+        ops.append(invoke([], j=rnd.randint(1, 2), k=0, outcomes=outcomes, policy={"kind": "all"}))
+        ops.append(invoke([], j=2, k=0))
+        scns.append(scenario("outdir-%d" % idx, ops, fam="sched", max_orders=12))
+    return scns
+
 def generate(seed, tier):
     return exhaustive_small(seed, tier) + random_sched(seed, tier) + hold_family(seed, tier) \
-        + args_family(seed, tier)
+        + args_family(seed, tier) + outdir_family(seed, tier)
